@@ -126,6 +126,31 @@ def gen_dc(rng, depth, namer, opts, kind=None, nfields=None):
     return ["dc", kind, name, fields]
 
 
+def norm_unions(t, seen=None):
+    """typing caches parametrised generics by ==, and Union[a, b] == Union[b, a]: inside one program List[Union[str, int]]
+    written after List[Union[int, str]] IS the earlier object.  Each case therefore uses one member order per member set."""
+    seen = {} if seen is None else seen
+    k = t[0]
+    if k == "union":
+        key = tuple(sorted(x[0] for x in t[1]))
+        if key in seen:
+            t[1] = [list(x) for x in seen[key]]
+        else:
+            seen[key] = [list(x) for x in t[1]]
+    elif k in ("opt", "list", "tupvar", "set"):
+        norm_unions(t[1], seen)
+    elif k == "tup":
+        for x in t[1]:
+            norm_unions(x, seen)
+    elif k == "dict":
+        norm_unions(t[1], seen)
+        norm_unions(t[2], seen)
+    elif k == "dc":
+        for f in t[3]:
+            norm_unions(f[3], seen)
+    return t
+
+
 # --------------------------------------------------------------------------------------------------
 # value generation (JSON form)
 
@@ -273,7 +298,12 @@ def source_of(t):
 def build(t):
     """exec the classes; returns the namespace (with _META: class name -> [(fname, meta)])"""
     import copy
+    import typing
 
+    # typing caches parametrised generics by ==, and Union[a, b] == Union[b, a]: without this, List[Union[int, str]] built
+    # after List[Union[str, int]] in the same process would silently be the earlier object (other member order)
+    for clear in getattr(typing, "_cleanups", []):
+        clear()
     ns = {"_DEFAULTS": {}, "_META": {}, "_KIND": {},
           "_enc": lambda k: (lambda v: [k, type(v).__name__]),
           "_dec": lambda k: (lambda p: [k, copy.deepcopy(p)])}
